@@ -1,19 +1,17 @@
 """C16 A precompile call has exactly the effect of the native message."""
 import json
 import os
-import random
 from vlib import *
 
 MANIFEST_ENTRY = dict(engine="PrecompileEq", design="§4 C16",
-    technique="TLA+ spec PrecompileEq.tla enumerates the case space (state kind x method x validator class x amount class x creation height) exhaustively with TLC; each case is executed twice on CacheContext forks of the same real state (native message via the message router; precompile via x/evm ApplyMessage as the owner); TLC trace spec PrecompileEqTrace.tla compares acceptance and every projected Cosmos field of the two forks, and the read-only precompile methods against the native queriers",
-    text="Differential check driven and decided by the specification: the native SDK message on a fork of the same state is the reference (the specification deliberately does not re-model staking validity), TLC enumerates all cases of the bounded space and validates every recorded pair: same accept/reject, identical delegations, unbondings, rewards, withdraw addresses, commissions, grants, balances and supply; staking and bank query methods equal to the native queriers in several states (also after state-changing calls).",
-    note="The spec supplies scenario space and comparator, not an independent model of SDK staking rules; ICS-20 is not driven (needs an IBC channel); the precompile is called with zero gas price through ApplyMessage (no ante handler), by an EOA owner; bounded case space.",
+    technique="TLA+ spec PrecompileEq.tla enumerates exhaustively with TLC (i) the case space: state kind (delegation / withdraw-address / vesting / operator states, the life cycle of the target validator: empty, empty but still bonded, jailed, unbonding, unbonded, and a state with several redelegations, slashes and IBC vouchers) x method x argument vector (validator class, amount class, creation height, redelegation destination, and for ICS-20 both timeouts, memo, receiver, port/channel, denomination) and (ii) the space of walks over the paginated read-only methods (selector x limit x countTotal x reverse x continuation by key / by offset); each case is executed twice on CacheContext forks of the same real state (native message via the message router; precompile via x/evm ApplyMessage as the owner), each walk twice on the same state (native querier; precompile), each following its own continuation; TLC trace spec PrecompileEqTrace.tla compares acceptance and every projected Cosmos field of the two forks, the walks page by page, and the remaining read-only methods against the native queriers",
+    text="Differential check driven and decided by the specification: the native SDK message on a fork of the same state is the reference (the specification deliberately does not re-model staking validity), TLC enumerates all cases of the bounded space and validates every recorded pair: same accept/reject, identical delegations, unbondings, redelegations, rewards, withdraw addresses, commissions, grants, validators, balances and supply in every denomination, escrow and the IBC packet commitments; staking, distribution and bank query methods equal to the native queriers in every state (also after state-changing calls); every paginated query walked to exhaustion with page sizes 1, 2 and default, with and without countTotal, forwards and backwards, by key and by offset.",
+    note="The spec supplies scenario space and comparator, not an independent model of SDK staking rules; ICS-20 runs over a loopback channel written into the store (localhost client: the receiving side's height and time are the chain's own); the precompile is called with zero gas price through ApplyMessage (no ante handler), by an EOA owner; bounded case space; the distribution precompile's paginated query (validatorSlashes) is walked although the statement's read-only clause names staking and bank only.",
     category="exploration")
 
 
 def run(c):
     c.level = "exploration"
-    quick = c.tier == "quick"
     build_harness()
     wd = scratch("C16")
     r = tlc_exhaustive(wd, "PrecompileEq.tla", "PrecompileEq.cfg", workers=2)
@@ -21,46 +19,79 @@ def run(c):
     cases = r.printed("SCRIPT")
     cases.sort(key=lambda s: json.dumps(s, sort_keys=True))
     total = len(cases)
-    if quick and total > 1000:
-        rnd = random.Random(c.seed)
-        cases = sorted(rnd.sample(cases, 260), key=lambda s: (s["state"], json.dumps(s, sort_keys=True)))
-    else:
-        cases.sort(key=lambda s: (s["state"], json.dumps(s, sort_keys=True)))
+    walks0 = sorted(r.printed("WALK"), key=lambda s: json.dumps(s, sort_keys=True))
+    # (both tiers run the whole space: it costs seconds)
+    cases.sort(key=lambda s: (s["state"], json.dumps(s, sort_keys=True)))
+    states = sorted({s["state"] for s in cases})
+    # every walk of the specification's space is run in every state
+    walks = [dict(w, state=st) for st in states for w in walks0]
     with open(os.path.join(wd, "cases.json"), "w") as fh:
         json.dump(cases, fh)
-    hv(["pceq", "--cases", "cases.json", "--seed", str(c.seed), "--out", "trace.ndjson"], cwd=wd)
+    with open(os.path.join(wd, "walks.json"), "w") as fh:
+        json.dump(walks, fh)
+    hv(["pceq", "--cases", "cases.json", "--walks", "walks.json", "--seed", str(c.seed), "--out", "trace.ndjson"], cwd=wd)
     res, _ = validate_trace(wd, "PrecompileEqTrace.tla", "PrecompileEqTrace.cfg")
     n = count_lines(os.path.join(wd, "trace.ndjson"))
     if res["consumed"] != n:
         raise Infra("trace spec consumed %d of %d lines" % (res["consumed"], n))
-    if res["both_ok"] < len(cases) // 10:
-        raise Infra("vacuous run: only %d of %d cases succeeded on both forks" % (res["both_ok"], len(cases)))
     lines = [json.loads(l) for l in open(os.path.join(wd, "trace.ndjson"))]
+    # non-vacuity: a fair share of the cases succeeds on both forks (most argument combinations of ICS-20 are invalid on
+    # purpose), and so does at least one case of every method that was run
+    okm = {}
+    for o in lines:
+        if o["ev"] == "case":
+            okm.setdefault(o["case"]["m"], 0)
+            okm[o["case"]["m"]] += 1 if o["native"]["ok"] and o["precompile"]["ok"] else 0
+    if res["both_ok"] < len(cases) // 20 or (len(cases) > 500 and min(okm.values()) == 0):
+        raise Infra("vacuous run: only %d of %d cases succeeded on both forks (per method: %s)" % (res["both_ok"], len(cases), okm))
+    if res["walks"] != len(walks) or res["walks_multi"] < len(walks) // 10:
+        raise Infra("vacuous run: %d of %d walks validated, %d with more than one page" % (res["walks"], len(walks), res["walks_multi"]))
     for o in lines:
         if o["ev"] == "case" and o["native"]["ok"] and len(c.samples) < 3:
             c.samples.append({"case": o["case"], "amount": o["amount"], "native_ok": True, "precompile_ok": o["precompile"]["ok"],
-                              "native_deleg": o["native"]["post"]["deleg"]["S"], "precompile_deleg": o["precompile"]["post"]["deleg"]["S"]})
+                              "native_deleg": o["native"]["post"]["deleg"]["S"], "precompile_deleg": o["precompile"].get("post", {}).get("deleg", {}).get("S")})
     c.traces = len(cases)
     c.extra.update({"evaluations": len(cases), "distinct_nontrivial": res["both_ok"], "case_space": total,
-                    "queries_compared": res["queries"], "exhaustive": len(cases) == total,
-                    "rule": "one evaluation = one case of the TLC-enumerated space executed as native message and as precompile call on forks of the same state; non-trivial = both executions succeeded (effects compared field by field); the rest compare accept/reject only"})
+                    "queries_compared": res["queries"], "exhaustive": len(cases) == total, "both_ok_per_method": okm,
+                    "walk_space": len(walks0), "walks_run": len(walks), "walks_with_several_pages": res["walks_multi"], "states": states,
+                    "rule": "one evaluation = one case of the TLC-enumerated space executed as native message and as precompile call on forks of the same state; non-trivial = both executions succeeded (effects compared field by field); the rest compare accept/reject only; one walk = one page-request pattern of the TLC-enumerated space followed to exhaustion natively and through the precompile in one state"})
     mine = {}
     for v in sorted(res["viol"], key=lambda v: v["line"]):
         mine.setdefault(sig_of(v), v)
     known = {k["signature"] for k in load_known() if k["property"] == "C16" and k.get("status", "known") == "known"}
+    # every new signature is re-executed from its saved scenario before it counts.  A case or a walk runs on its own
+    # fork of the state it names, independent of whatever else the file holds: the new ones are re-executed together in
+    # one run; a query comparison after a state-changing case is re-executed alone.
+    batch = {"property": "C16", "driver": "pceq", "seed": c.seed, "cases": [], "walks": []}
+    pending = set()
     for s, v in mine.items():
         o = lines[v["line"] - 1]
+        alone = False
         if o["ev"] == "case":
             path = save_replay("C16", "%s-l%d" % (c.seed, v["line"]), {"property": "C16", "driver": "pceq", "signature": s, "seed": c.seed, "cases": [o["case"]]})
+        elif o["ev"] == "walk":
+            path = save_replay("C16", "%s-l%d" % (c.seed, v["line"]), {"property": "C16", "driver": "pceq", "signature": s, "seed": c.seed, "cases": [], "walks": [o["walk"]]})
         else:
             # queries are compared when a state is first built (and after some state-changing cases)
+            alone = True
             st0 = o["state"].split("+")[0]
             prev = [x["case"] for x in lines[:v["line"]] if x["ev"] == "case" and x["case"]["state"] == st0][-1:] if "+" in o["state"] else []
             path = save_replay("C16", "%s-l%d" % (c.seed, v["line"]), {"property": "C16", "driver": "pceq", "signature": s, "seed": c.seed,
                                "cases": prev or [{"state": st0, "m": "setWithdrawAddress", "val": "V1", "amt": "0", "height": "ok", "to": "T"}]})
         c.replays[s] = path
-        if s not in known and s not in replay(path, quiet=True):
-            raise Infra("signature %s did not reproduce from %s" % (s, path))
+        if s in known:
+            continue
+        if alone:
+            if s not in replay(path, quiet=True):
+                raise Infra("signature %s did not reproduce from %s" % (s, path))
+        else:
+            pending.add(s)
+            batch["cases" if o["ev"] == "case" else "walks"].append(o[o["ev"]])
+    if pending:
+        path = save_replay("C16", "%s-new" % c.seed, batch)
+        missing = pending - set(replay(path, quiet=True))
+        if missing:
+            raise Infra("signatures %s did not reproduce from %s" % (sorted(missing)[:5], path))
     c.add_violations(mine.values())
     c.assumptions += ["the native message executed on a fork of the same state is the reference semantics",
                       "harness/pceq.go projections (shared with harness/evmc.go) are trusted; TLC and the Json module are trusted"]
@@ -72,7 +103,9 @@ def replay(path, quiet=False):
     obj = json.load(open(path))
     with open(os.path.join(wd, "cases.json"), "w") as fh:
         json.dump(obj["cases"], fh)
-    hv(["pceq", "--cases", "cases.json", "--seed", str(obj.get("seed", 1)), "--out", "trace.ndjson"], cwd=wd)
+    with open(os.path.join(wd, "walks.json"), "w") as fh:
+        json.dump(obj.get("walks", []), fh)
+    hv(["pceq", "--cases", "cases.json", "--walks", "walks.json", "--seed", str(obj.get("seed", 1)), "--out", "trace.ndjson"], cwd=wd)
     res, _ = validate_trace(wd, "PrecompileEqTrace.tla", "PrecompileEqTrace.cfg")
     sigs = sorted({sig_of(v) for v in res["viol"]})
     if not quiet:
